@@ -8,13 +8,6 @@ a parked removal request is the only user of its gid and its name is gone. Helpe
 namespace Backend.PC
 open Backend Spsc
 
-theorem lgOf_setLg (s : BSt) (i j : Nat) (f : Lg → Lg) :
-    (s.setLg i f).lgOf j = if j = i ∧ j < s.lgs.length then f (s.lgOf j) else s.lgOf j := by
-  simp only [BSt.setLg, BSt.lgOf, getD_updAt]
-
-@[simp] theorem lgs_length_setLg (s : BSt) (i : Nat) (f : Lg → Lg) : (s.setLg i f).lgs.length = s.lgs.length := by
-  simp [BSt.setLg, updAt_length]
-
 /-- gid / erased / valid of every logger object after an update that keeps them -/
 theorem lgOf_setLg_keep (s : BSt) (i j : Nat) (f : Lg → Lg)
     (h : ∀ l, (f l).gid = l.gid ∧ (f l).erased = l.erased ∧ (f l).valid = l.valid ∧ (f l).sinks = l.sinks) :
